@@ -615,6 +615,21 @@ func dateKeys(c cfg, ref cfgRef, loc *time.Location) []kcase {
 		}
 		add(key{T: "string", S: s}, want{Mode: "error"}, class, "")
 	}
+	// one non-digit in a digit position the rule reads (not the leading one, where Atoi's sign
+	// is tolerated by the code and nobody's business): malformed, must be an error value
+	// (seed c09-5: a day field parsed on its own accepts "+5")
+	for _, full := range []string{instant{first.y, first.m, first.d, 0, 0, 0}.date(), instant{first.y, first.m, first.d, 10, 20, 30}.datetime()} {
+		for i := 1; i < need(typ) && i < len(full); i++ {
+			if i == 4 || i == 7 {
+				continue
+			}
+			for _, c := range []byte{'+', '-', ' ', 'x', '.', ':'} {
+				b := []byte(full)
+				b[i] = c
+				add(key{T: "string", S: string(b)}, want{Mode: "error"}, "nondigit_in_field", fmt.Sprintf("position %d of %s", i, full))
+			}
+		}
+	}
 	// strings that are not one of the accepted spellings and whose reading is MySQL's or
 	// nobody's business: only "no panic" is demanded
 	for _, s := range []string{"2016-13-01", "2016-02-30", "2016-00-00", "1456790400", "20160301", "2016/03/01", "2016-3-1",
